@@ -313,7 +313,7 @@ func main() {
 	buildSim()
 	var code int
 	switch {
-	case *replay != "":
+	case *replay != "" && prop != "selfdiff":
 		code = doReplay(prop, *replay)
 	case prop == "warm":
 		// build + one run, to warm the Go build cache and the wazero compilation cache
@@ -324,6 +324,9 @@ func main() {
 		}
 		fmt.Println("warm: ok", res.rec.EndReason)
 		code = 0
+	case prop == "selfdiff":
+		// vcheck selfdiff --runs <case index> --replay <property>
+		code = doSelfDiff(*replay, *runs, seed)
 	case prop == "selftest":
 		code = doSelftest(*tier, seed, *workers)
 	default:
